@@ -3,6 +3,13 @@ Props/C12b.lean — C12 completed with C10: the parser obligation `C12_parser_fu
 hypothesis in Props/C12.lean because the parser model belongs to C10) is discharged by
 `AV.Rx.GnfaGlue.parser_of_C10` (from `C10_compile_default`), which makes the English property
 unconditional.  Own module: importing the C10 files into Props/C12.lean makes `Rx.den` ambiguous.
+
+Round 2 (reviewer rev3) adds, in this order:
+* `C12_to_regex_explicit_alphabet` — the form with `NFA.from_regex(s, input_symbols=Σ_source)`;
+* `C12_one_validator_model`, `C12_to_regex_re` — `re._validate` has one model (C10's lexer and
+  `validate_tokens`); the stand-alone `simpleRxValid` agrees with it off `{`;
+* `C12_reserved_alphabet_fails`, `C12_to_regex_any_alphabet_fails` — the hypothesis "every input
+  symbol is `IsLit`" is necessary: the open finding `C12:alphabet-has-reserved-regex-character`.
 -/
 import AutomataVerif.Props.C12
 import AutomataVerif.Proofs.RxGnfaGlue
